@@ -425,6 +425,52 @@ fn params(m: &Model, ctx: &mut Ctx) {
 /// container — SEQUENCE, SET, CHOICE, SEQUENCE OF, SET OF — so every traversal (a method of `ASN1Type` whose `match self`
 /// recurses into at least two of them) must recurse into all five; the exceptions are audited one by one
 /// (audit/traversal.json). Siblings are cross-checked: the majority shape is the rule, a deviant is reported.
+/// C09.scope (value chains) / C04.scope: "a value reference inside a constraint" may name a value assignment that is itself a
+/// reference (`hi INTEGER ::= max-v`, and every value argument of a parameterized type: `Bounded {1, max-v}` binds `hi` to the
+/// reference `max-v`). The lookup used for constraint bounds must hand back the value the chain ends in — a bound that is
+/// still a reference is dropped silently (`value("1..")`). find_tld_or_enum_value_by_name is evaluated on `a ::= b  b ::= 20`.
+pub fn value_chain(m: &Model, ctx: &mut Ctx, rule: &str) {
+    use crate::eval::{Env, Evaluator, Val};
+    use std::collections::BTreeMap as Map;
+    let Ok(g) = m.find_fn(None, "find_tld_or_enum_value_by_name", None) else {
+        ctx.fail_closed(rule, "anchor not found: find_tld_or_enum_value_by_name");
+        return;
+    };
+    ctx.func(&g.key);
+    let consts = const_resolver(m);
+    let named = |n: &str, fields: Vec<(&str, Val)>| Val::Ctor(n.to_string(), vec![], fields.into_iter().map(|(k, v)| (k.to_string(), v)).collect::<Map<_, _>>());
+    let reference = |to: &str| named("ElsewhereDeclaredValue", vec![("identifier", Val::Str(to.into())), ("parent", Val::none()), ("module", Val::none())]);
+    let value = |n: &str, v: Val| Val::Ctor("Value".into(), vec![named("ToplevelValueDefinition", vec![("name", Val::Str(n.into())), ("value", v)])], Map::new());
+    let mut tlds = crate::eval::new_map();
+    tlds = crate::eval::map_insert(tlds, Val::Str("a".into()), value("a", reference("b")));
+    tlds = crate::eval::map_insert(tlds, Val::Str("b".into()), value("b", reference("c")));
+    tlds = crate::eval::map_insert(tlds, Val::Str("c".into()), value("c", Val::Ctor("Integer".into(), vec![Val::int(20)], Map::new())));
+    let hook = |_: &Evaluator, name: &str, _: &[Val]| -> Option<Result<Val, String>> { if name == "grammar_error!" { Some(Ok(Val::Sym("GrammarError".into()))) } else { None } };
+    let inl = inline_all(m, &["ToplevelDefinition", "ASN1Value"]);
+    let ev = Evaluator { consts: &consts, call_hook: &hook, inline: Some(&inl) };
+    let params: Vec<String> = g.sig.inputs.iter().filter_map(|a| match a { syn::FnArg::Typed(t) => Some(tok(&t.pat)), _ => None }).collect();
+    for start in ["c", "b", "a"] {
+        ctx.oblige(rule, &format!("value-chain:{}", start), true);
+        let mut env = Env::new();
+        env.insert(params.first().cloned().unwrap_or("type_name".into()), Val::Str("T".into()));
+        env.insert(params.get(1).cloned().unwrap_or("name".into()), Val::Str(start.into()));
+        env.insert(params.get(2).cloned().unwrap_or("tlds".into()), tlds.clone());
+        crate::eval::WHILE_BOUND.with(|b| b.set(64));
+        let r = ev.eval_fn_body(&g.block, &mut env);
+        crate::eval::WHILE_BOUND.with(|b| b.set(10_000));
+        match r {
+            Ok(Val::Ctor(s, p, _)) if s == "Some" => {
+                let got = p.first().map(|v| v.show()).unwrap_or_default();
+                if got != "Integer(20)" {
+                    ctx.violate(rule, "value-chain", &g.file, g.line, &format!("the bound `{}` with `a INTEGER ::= b  b INTEGER ::= c  c INTEGER ::= 20` is looked up as `{}`: the chain of value references is not followed to its value, the constraint keeps a reference and the bound is dropped without a warning (`X ::= INTEGER (1..a)` -> `value(\"1..\")`; every value argument of a parameterized type is such a reference)", start, got.chars().take(90).collect::<String>()));
+                }
+            }
+            Ok(o) => ctx.violate(rule, "value-chain", &g.file, g.line, &format!("the bound `{}` is looked up as {}", start, o.show().chars().take(90).collect::<String>())),
+            Err(e) => ctx.fail_closed(rule, &format!("[value chain {}]: {}", start, e)),
+        }
+    }
+}
+
 pub fn traverse(m: &Model, ctx: &mut Ctx, rule: &str) {
     use crate::eval::{Evaluator, Val, Env};
     let audit: serde_json::Value = std::fs::read_to_string(ctx.verif.join("audit/traversal.json")).ok().and_then(|s| serde_json::from_str(&s).ok()).unwrap_or(serde_json::json!({"exceptions": {}}));
@@ -834,6 +880,7 @@ Not applicable: the equivalence sugared = expanded itself, independence from the
 
     scope(m, ctx, "C09.scope");
     traverse(m, ctx, "C09.traverse");
+    value_chain(m, ctx, "C09.scope");
     detectors(m, ctx, "C09.detect");
     short_circuit(m, ctx, "C09.shortcircuit");
     select(m, ctx, "C09.select");
